@@ -273,6 +273,13 @@ func c02Worker(w *W) {
 	if got := log.GetAllTags(); len(got) != len(all) {
 		w.Note(fmt.Sprintf("GetAllTags has %d names, harness registered %d (+2 built-in)", len(got), len(all)-2))
 	}
+	// every second worker also holds a named handle for logger l0 (obtained before the first Refresh, as the API demands): the
+	// tag rules - in particular "a non-root logger that lists no tags is an error" - hold whether or not a logger is also
+	// addressed by name, and a raw write through the handle reaches l0's appender only
+	var handle interface{ Write([]byte) (int, error) }
+	if w.Spec.Shard%2 == 1 {
+		handle = log.GetLogger("l0")
+	}
 	ctx := context.Background()
 	n := int(w.Spec.N)
 	only := -1
@@ -343,6 +350,14 @@ func c02Worker(w *W) {
 				ids[id] = t
 				log.Info(ctx, tags[t], log.Msg(id))
 			}
+			hid := ""
+			if handle != nil {
+				hid = fmt.Sprintf("id-h%dx%dx%d-0", w.Spec.Shard, ci, rep)
+				if pv, _ := catch(func() { _, _ = handle.Write([]byte("raw " + hid + "\n")) }); pv != nil {
+					w.Violate("C02:handle-write-panic", fmt.Sprintf("write through the named handle of l0 panicked: %v", pv), cs)
+				}
+				w.Count("handle_writes", 1)
+			}
 			log.Destroy()
 			seen := map[string][]string{}
 			for _, it := range rec.take() {
@@ -352,6 +367,13 @@ func c02Worker(w *W) {
 			for _, ch := range sink.take() {
 				id := idOf(ch)
 				seen[id] = append(seen[id], "console")
+			}
+			if hid != "" {
+				if got := seen[hid]; len(got) != 1 || got[0] != "sl0" {
+					okAll = false
+					w.Violate("C02:handle-misrouted", fmt.Sprintf("a raw write through the handle named l0 arrived at %v, expected exactly [sl0]", got), cs)
+				}
+				delete(seen, hid)
 			}
 			for id, t := range ids {
 				want := c.owner(t)
